@@ -17,9 +17,20 @@
                           vector inside ONE `with channels-lock` block.
   Strings occur only as labels (class / method names, the resolved call); no predicate looks at them.
 
+  Further decidable facts for the extended wait-for graph (Part 3): `joinsLockFree` (nobody joins a
+  thread while holding a lock), `joinTargetsAreBodies`, `bodiesNeverWaitForever` (a library thread
+  never waits on a queue without a timeout and never joins), `foreverGetsProduced`, `subProduced`.
+
   Part 2 — a general model for the no-deadlock lemma: any number of threads, each holding a list
   of locks and possibly waiting for one; `Deadlocked S` = a non-empty set of threads each waiting
   for a lock held by a thread of the set.  The lemma itself is `Nxs.C12.no_deadlock`.
+
+  Part 3 — the wait-for graph with the other two ways a thread of this library can block: a queue `get`
+  (the writer waiting for the ACK while it holds the channels lock, the stream thread waiting for a
+  stream frame, the application waiting for samples on a subscriber queue) and `Thread.join`
+  (`thread_stop`, from `stream_stop` / `disconnect`).  `WDeadlocked` = a non-empty set of threads each
+  stuck on something only the set can provide; `Fits` ties a thread state to the table.  The theorem is
+  `Nxs.C12.waitfor_no_deadlock`.
 
   Mathlib-free, executable.
 -/
@@ -127,6 +138,16 @@ structure Blocking where
   via : String
   deriving Repr
 
+/-- identity of a thread: the library's own threads (the targets of its `ThreadCommon` objects) and the
+    application's -/
+inductive Tid where
+  | recv          -- `CommHandler._recv_thread`
+  | stream        -- `NxscopeHandler._stream_thread`
+  | dummyStream   -- `DummyDev._thread_stream`
+  | dummyRecv     -- `DummyDev._thread_recv`
+  | app (k : Nat) -- an application thread
+  deriving DecidableEq, Repr
+
 /-- a library thread body (the target of a `ThreadCommon`) with everything it calls -/
 structure ThreadBody where
   name : String
@@ -135,6 +156,19 @@ structure ThreadBody where
   locks : List Lock       -- every lock the body can take
   produces : List QueueId
   consumes : List QueueId
+  tid : Tid
+  foreverGets : List QueueId   -- queues on which the body can wait WITHOUT a timeout
+  joins : List Tid             -- threads the body can join
+  deriving Repr
+
+/-- a `ThreadCommon.thread_stop()` (→ `Thread.join()` without timeout) reachable from an entry method -/
+structure JoinSite where
+  cls : String
+  meth : String
+  line : Nat
+  held : List Lock
+  target : Tid
+  via : String
   deriving Repr
 
 /-- events of a request+ACK exchange method, in source order -/
@@ -156,6 +190,7 @@ structure Table where
   threads : List ThreadBody
   exEnable : List ExEv
   exDiv : List ExEv
+  joins : List JoinSite
   deriving Repr
 
 def Access.protected (a : Access) : Bool :=
@@ -200,11 +235,33 @@ def exchangeAtomic (l : List ExEv) : Bool :=
 
 def exchangesAtomic (t : Table) : Bool := exchangeAtomic t.exEnable && exchangeAtomic t.exDiv
 
+/-- nobody joins a thread while holding a lock -/
+def joinsLockFree (t : Table) : Bool := t.joins.all fun j => j.held.isEmpty
+
+/-- every joined thread is one of the library's thread bodies -/
+def joinTargetsAreBodies (t : Table) : Bool := t.joins.all fun j => t.threads.any fun b => b.tid == j.target
+
+/-- no library thread ever waits on a queue without a timeout, and none joins another thread: every
+    blocking call of a thread body other than a lock acquisition is bounded -/
+def bodiesNeverWaitForever (t : Table) : Bool := t.threads.all fun b => b.foreverGets.isEmpty && b.joins.isEmpty
+
+/-- a `get` without timeout anywhere in the library is on a queue some thread body puts on -/
+def foreverGetsProduced (t : Table) : Bool :=
+  t.blocking.all fun b => !(b.kind == .get && !b.bounded) || t.threads.any fun x => x.produces.contains b.queue
+
+/-- the subscriber queues (on which the APPLICATION waits, outside the library) have a producer -/
+def subProduced (t : Table) : Bool := t.threads.any fun x => x.produces.contains .sub
+
+/-- the threads that put on queue `q` -/
+def producersOf (t : Table) (q : QueueId) : List Tid :=
+  (t.threads.filter fun b => b.produces.contains q).map (·.tid)
+
 /-- one line per fact, for the driver / evidence -/
 def Table.summary (t : Table) : String :=
   s!"accesses={t.accesses.length} acqs={t.acqs.length} blocking={t.blocking.length} threads={t.threads.length} " ++
   s!"protected={allProtected t} ranked={nestingRespectsRank t} producers={producersLockFree t} " ++
-  s!"bounded={blockingBounded t} atomic={exchangesAtomic t} " ++
+  s!"bounded={blockingBounded t} atomic={exchangesAtomic t} joins={t.joins.length} joinsLockFree={joinsLockFree t} " ++
+  s!"bodiesBounded={bodiesNeverWaitForever t} " ++
   "nest=" ++ ",".intercalate ((nestPairs t).eraseDups.map fun p => p.1.name ++ ">" ++ p.2.name)
 
 /-! ## Part 2: abstract threads and deadlock -/
@@ -232,6 +289,50 @@ def Exclusive {L : Type} (ts : List (Thr L)) : Prop :=
     acquisition site and holds only locks recorded as held there -/
 def Conforms (acqs : List Acq) (t : Thr Lock) : Prop :=
   ∀ l, t.waits = some l → ∃ a ∈ acqs, a.acquires = l ∧ ∀ h ∈ t.holds, h ∈ a.held
+
+/-! ## Part 3: the wait-for graph with queue waits and joins -/
+
+/-- what a thread can be blocked on -/
+inductive Wait where
+  | lock (l : Lock)                          -- `with <lock>:`
+  | queue (q : QueueId) (bounded : Bool)     -- `Queue.get` (`bounded`: a timeout was given)
+  | join (t : Tid)                           -- `Thread.join()` without timeout (`thread_stop`)
+  deriving DecidableEq, Repr
+
+/-- a thread in the extended wait-for graph -/
+structure XThr where
+  tid : Tid
+  holds : List Lock
+  waits : Option Wait
+  deriving Repr
+
+/-- `t` can only be released by members of `S`.  A lock: its holder is in `S`.  A join: the joined
+    thread is in `S`.  A queue `get`: every producer of the queue is in `S` — and the `get` either has no
+    timeout or is made while holding a lock (the timeout of a `get` under a lock is deliberately NOT
+    relied upon; a `get` with a timeout made while holding no lock returns by itself and is never stuck). -/
+def Stuck (prod : QueueId → List Tid) (S : List XThr) (t : XThr) : Prop :=
+  match t.waits with
+  | none => False
+  | some (.lock l) => ∃ u ∈ S, l ∈ u.holds
+  | some (.queue q bounded) => (bounded = false ∨ t.holds ≠ []) ∧ ∀ p ∈ prod q, ∃ u ∈ S, u.tid = p
+  | some (.join j) => ∃ u ∈ S, u.tid = j
+
+/-- a non-empty set of threads each of which can only be released by members of the set -/
+def WDeadlocked (prod : QueueId → List Tid) (S : List XThr) : Prop :=
+  S ≠ [] ∧ ∀ t ∈ S, Stuck prod S t
+
+/-- a thread state is explained by the table: every wait happens at a recorded site holding at most the
+    locks recorded there (the application may in addition wait on its own subscriber queue, outside
+    the library, holding nothing), and a library thread stays within its recorded body -/
+structure Fits (tbl : Table) (t : XThr) : Prop where
+  lockSite : ∀ l, t.waits = some (.lock l) → ∃ a ∈ tbl.acqs, a.acquires = l ∧ ∀ h ∈ t.holds, h ∈ a.held
+  queueSite : ∀ q b, t.waits = some (.queue q b) →
+    (∃ s ∈ tbl.blocking, s.kind = .get ∧ s.queue = q ∧ s.bounded = b ∧ ∀ h ∈ t.holds, h ∈ s.held) ∨
+    (q = .sub ∧ t.holds = [] ∧ ∀ x ∈ tbl.threads, x.tid ≠ t.tid)
+  joinSite : ∀ j, t.waits = some (.join j) → ∃ s ∈ tbl.joins, s.target = j ∧ ∀ h ∈ t.holds, h ∈ s.held
+  body : ∀ x ∈ tbl.threads, x.tid = t.tid →
+    (∀ h ∈ t.holds, h ∈ x.locks) ∧ (∀ l, t.waits = some (.lock l) → l ∈ x.locks) ∧
+    (∀ q, t.waits = some (.queue q false) → q ∈ x.foreverGets) ∧ (∀ j, t.waits = some (.join j) → j ∈ x.joins)
 
 end Locks
 end Nxs
